@@ -151,6 +151,7 @@ def gen_plan(rng, profile="accounting", tier="quick", knobs=None):
             o["c1"] = rng.choice([None, 1.0, 1.01, 0.99])
             o["c2"] = rng.choice([None, 1.0, 1.02, 0.97])
             o["back"] = rng.choice([1.0, 1.0, 1.0, 0.5])
+            o["obs_between"] = rng.random() < 0.4
             o["upd"] = upd
         elif kind == "tspread":
             o["qfrac"] = round(rng.choice([1, -1]) * rng.choice([0.1, 0.5]), 4)
@@ -1061,6 +1062,13 @@ class TreeSim(taps.Sim):
         p1 = round(price * o["c1"], 6) if (has_bo and o.get("c1")) else None
         p2 = round(price * o["c2"], 6) if (has_bo and o.get("c2")) else None
         self.fire("roundtrip")
+
+        if o.get("obs_between"):
+            # the two legs are separated by a full observation in the eager flush schedule and by nothing in the lazy one
+            self.guarded(lambda: c.transact(q, update=True, price=p1), "roundtrip leg 1")
+            self.observe()
+            self.guarded(lambda: c.transact(-q * o.get("back", 1.0), update=o["upd"], price=p2), "roundtrip leg 2")
+            return True
 
         def go():
             c.transact(q, update=False, price=p1)
